@@ -216,6 +216,10 @@ class SeedScript(object):
                         print("no need for re-seeding")
                         sys.exit(1)
                     os.utime(options.reseed_file, (time.time(), time.time()))
+            if progress and not os.path.exists(options.progress_file):
+                # a new re-seed starts here: the progress file marks it as not completed,
+                # even if this call ends before the first progress is logged
+                progress.write()
 
         with mapproxy_conf:
             try:
